@@ -26,7 +26,7 @@ ASSUMPTIONS = ["controls whose sample variance is below 1e-9 x their mean square
                "to an O_APPEND file, the multiset of logged values is the reference (which worker simulates which path is not prescribed)"]
 REQUIRED_COUNTERS = ["price_checks", "stddev_checks", "each_path_once_checks", "control_variate_checks", "cv_mean_invariance",
                      "cv_variance_checks", "vector_payoff_cases", "spot_statistics_cases", "control_variates_object_reused",
-                     "concentrated_sample_cases", "symmetric_path_sets", "same_engine_repricings", "discount_factor_above_one_cases", "zero_notional_cases", "worker_process_runs", "worker_runs_with_two_or_more_simulating_processes"]
+                     "concentrated_sample_cases", "symmetric_path_sets", "same_engine_repricings", "discount_factor_above_one_cases", "zero_notional_cases", "controls_on_another_underlying", "log_representation_cases", "worker_process_runs", "worker_runs_with_two_or_more_simulating_processes"]
 MIN_NONTRIVIAL = {"quick": 100, "thorough": 1500}
 THOROUGH_ROUNDS = 20      # the thorough tier runs the generators this many times (different seeds)
 
@@ -37,9 +37,11 @@ def gen_cases(tier, seed):
     cases = []
     for i in range(n):
         cases.append({"seed": int(rng.integers(2**31)), "N": int(rng.choice([2, 3, 5, 17, 64, 200, 513])),
-                      "product": ["forward", "call", "put", "call-vector", "onthefly"][i % 5], "ncv": int(i % 4),
+                      "product": ["forward", "call", "put", "call-vector", "onthefly", "barrier"][i % 6], "ncv": int(i % 4),
                       "cv_prices": ["scalar", "vector"][(i // 4) % 2], "spot_stats": bool((i // 8) % 2),
                       "cv_notional": float([1.0, 1.0, 1e-2, 1.0, 250.0, 1e-4, 1.0, 2e-5, 1.0, 1e-7, 1e-9][(i // 4) % 11])})
+        if i % 5 == 3 or i % 7 == 2:
+            cases[-1]["log_rep"] = True           # the process simulates log S (the engine switches the product and the controls to it)
         if i % 12 == 0:
             # samples concentrated around a large value (relative spread 1e-6 .. 1e-8): the error estimate must not lose them to cancellation
             cases[-1]["concentration"] = float(rng.choice([1e-6, 1e-8]))
@@ -179,6 +181,11 @@ def _payoff(kind, k, ks):
         return P.Vanilla(strike=k, payoff_type=P.PayoffType.PUT), lambda s: np.maximum(k - s, 0.0)
     if kind == "call-vector":
         return P.Vanilla(strike=np.array(ks), payoff_type=P.PayoffType.CALL), lambda s: np.maximum(s[:, None] - np.array(ks)[None, :], 0.0)
+    if kind == "barrier":
+        # up-and-out call: the scripted path has two points (0 and the terminal value), the event is "terminal value above the barrier"
+        B = k * 1.15
+        return (P.Barrier(strike=k, payoff_type=P.PayoffType.CALL, barrier_type=P.BarrierType.UP_AND_OUT, barrier=B),
+                lambda s: np.where(s > B, 0.0, np.maximum(s - k, 0.0)))
     return P.PayoffOnTheFly(lambda x: 0.3 * x * x + 1.0), lambda s: 0.3 * s * s + 1.0
 
 
@@ -237,13 +244,21 @@ def run_case(case, R):
     cv_notional = float(case.get("cv_notional", 1.0))     # controls in small cash units (rate-like payoffs) as well as large ones
     for j in range(case["ncv"]):
         kj = float(k * (0.85 + 0.1 * j))
+        und_j = Spot()
         if sym:
             pj, fj = [(P.Forward(strike=centre), lambda x: x - centre), (P.PayoffOnTheFly(lambda x: (x - centre) ** 2), lambda x: (x - centre) ** 2)][j]
+        elif dim == 1 and j == 0 and case["seed"] % 2 == 0:
+            # a control written on another underlying than the product's (the logarithm of the spot): nothing can be implied from the product
+            from rpylib.product.underlying import LogSpot
+
+            und_j = LogSpot()
+            pj, fj = P.Forward(strike=math.log(kj)), (lambda x, kj=kj: np.log(x) - math.log(kj))
+            R.hit("controls_on_another_underlying")
         elif dim == 1:
             pj, fj = _payoff(["forward", "call", "put"][j % 3], kj, ks)
         else:
             pj, fj = _payoff("call-vector", kj, [kj * 0.8, kj, kj * 1.25])
-        cvs.append(Product(payoff_underlying=Spot(), payoff=pj, maturity=T, notional=cv_notional))
+        cvs.append(Product(payoff_underlying=und_j, payoff=pj, maturity=T, notional=cv_notional))
         cv_funs.append(lambda x, fj=fj: cv_notional * np.asarray(fj(x), dtype=float))
     X = None
     cv_obj = None
@@ -258,7 +273,7 @@ def run_case(case, R):
         cv_obj = ControlVariates(products=cvs, prices=prices)
 
     def run(cv, spot_stats):
-        proc = ScriptedProcess(list(s), dim=1, rate=rate)
+        proc = ScriptedProcess(list(s), dim=1, rate=rate, log_representation=bool(case.get("log_rep")))
         conf = ConfigurationStandard(mc_paths=N, seed=12345, control_variates=cv, activate_spot_statistics=spot_stats, nb_of_processes=1)
         eng = Engine(conf, proc)
         st = eng.price(product)
@@ -271,6 +286,8 @@ def run_case(case, R):
         return
     if dim > 1:
         R.hit("vector_payoff_cases")
+    if case.get("log_rep"):
+        R.hit("log_representation_cases")
     if case["spot_stats"]:
         R.hit("spot_statistics_cases")
     # ---- every scripted path used exactly once -----------------------------------------------------------------------------
@@ -279,7 +296,9 @@ def run_case(case, R):
     stored = np.asarray(st._payoff_statistics.stats, dtype=float).reshape(N, dim)
     if sorted(used) != list(range(N)):
         R.violation("paths-not-simulated-once", f"{len(used)} simulate_one_path calls for {N} configured paths (distinct {len(set(used))})", wit)
-    if not np.allclose(stored, Y2, rtol=1e-12, atol=0):
+    # (in the log representation the underlying is exp(log s): one rounding on the size of s, not of the payoff)
+    atol_rep = 4e-15 * abs(notional) * df * float(np.max(np.abs(s))) * (30.0 if case["product"] == "onthefly" else 1.0) if case.get("log_rep") else 0.0
+    if not np.allclose(stored, Y2, rtol=1e-12, atol=atol_rep):
         bad = int(np.argmax(np.max(np.abs(stored - Y2), axis=1)))
         R.violation("stored-payoff-not-discounted-notional-payoff", f"row {bad} of the payoff statistics is {stored[bad].tolist()}, df*notional*payoff of "
                     f"the {bad}-th scripted path is {Y2[bad].tolist()}", wit)
@@ -290,7 +309,7 @@ def run_case(case, R):
     # ---- raw price and error ---------------------------------------------------------------------------------------------------
     R.hit("price_checks")
     raw = np.atleast_1d(np.asarray(st.price(no_control_variates=True), dtype=float))
-    want = Y2.mean(axis=0)
+    want = Y2.mean(axis=0) if not case.get("log_rep") else stored.mean(axis=0)      # (log representation: the rows the engine stored, compared with the scripted payoffs above)
     ymax = float(np.max(np.abs(Y2))) if Y2.size else 0.0       # the mean of samples of both signs cancels: rounding is on the scale of the samples
     if not np.allclose(raw, want, rtol=1e-12, atol=1e-14 + 4e-15 * N * ymax):
         R.violation("raw-price-not-mean", f"price(no_control_variates=True) = {raw.tolist()}, df*mean(notional*payoff) = {want.tolist()}", wit)
